@@ -193,6 +193,16 @@ def _mismatch(op, gflat, exp, cells, bad):
     return na, ns, wv
 
 
+TIE_OPS = ("lowest_position", "highest_position", "lesser_frequency", "equal_frequency", "greater_frequency", "rank")
+
+
+def _rearranged(flat, exp):
+    """Same multiset of values (NaN count included) at other positions: the cells were visited in another order."""
+    a = sorted(x for x in flat if x == x)
+    b = sorted(float(x) for x in exp if x == x)
+    return len(a) == len(b) and len(flat) >= 2 and all(abs(x - y) <= 1e-9 * max(1.0, abs(y)) for x, y in zip(a, b))
+
+
 def _check_op(r, op, out, exp, cells, bad, refs, h, w, tag):
     """Compare one operator output with the oracle; returns the flat float output or None."""
     g, gf = _as_float_grid(out)
@@ -211,15 +221,19 @@ def _check_op(r, op, out, exp, cells, bad, refs, h, w, tag):
         if not any(_mismatch(op, un, exp, cells, bad)):
             r.fail(op + ".cell_order[output = oracle walked in column-major (memory) order]", msg)
             return flat
-    if na:
+    if _rearranged(flat, exp):
+        r.fail(op + ".cell_order[output is a rearrangement of the oracle's cells]", msg)
+    elif na:
         r.fail(op + ".nan_absorb[NaN in a data layer, output not NaN]", msg)
     elif ns:
         r.fail(op + ".nan_spurious[no NaN in the data layers, output NaN]", msg)
-    else:
+    elif op in TIE_OPS:
         def tie(i):
             t = cells[i]
             return len(set(t)) < len(t) or (refs is not None and refs[i] in t)
         r.fail(op + (".value[only at cells with a tie]" if all(tie(i) for i in wv) else ".value"), msg)
+    else:
+        r.fail(op + ".value", msg)
     return flat
 
 
@@ -268,7 +282,8 @@ def _check_combine(r, out, cells, bad, h, w, tag):
     p = _combine_problem(flat, key, cells, bad)
     if p is None:
         return flat
-    if h > 1 and w > 1 and not p[0].startswith("key"):
+    if h > 1 and w > 1 and p[0].startswith(("partition", "nan_")):
+        # cells in the wrong places, but a consistent partition once the column-major walk is undone
         un = gf.ravel().reshape(w, h).T.ravel().tolist()
         q = _combine_problem(un, key, cells, bad)
         if q is None or q[0].startswith(("numbering", "key")):
@@ -281,7 +296,8 @@ def _check_combine(r, out, cells, bad, h, w, tag):
 # ---------------------------------------------------------------------- body
 
 def _run_ops(r, spec, ds, arrays, tag, labels):
-    """Call every operator on ds, check against the oracle, return {op: flat output or (flat, key)}."""
+    """Call every operator on ds and check it against the oracle.  Returns {op: row-major list of per-cell outputs}
+    (for combine: the key tuple of the cell's id) for the locality relation."""
     from xrspatial import local
     order = [ly["name"] for ly in spec["layers"]]
     h, w = arrays[order[0]].shape
@@ -655,61 +671,51 @@ def ops_cases(draw, max_side, layout_modes=None):
 def shards(tier):
     out = []
     thorough = tier == "thorough"
-    nrand, per, side = (12, 2600, 12) if thorough else (12, 900, 8)
+    nrand, per, side = (16, 7000, 12) if thorough else (12, 900, 8)
     for i in range(nrand):
         out.append(("rand#%d" % i, lambda ctx, i=i: drive_hypothesis(ctx, body_ops, ops_cases(side), per)))
     # non-C layouts only: the class the Fortran-order repair (9652984) is about
-    nlay, perl = (4, 2000) if thorough else (4, 600)
+    nlay, perl = (8, 5000) if thorough else (4, 600)
     for i in range(nlay):
         out.append(("layout#%d" % i, lambda ctx, i=i: drive_hypothesis(
             ctx, body_ops, ops_cases(side, ["allF", "allF", "mixed", "mixed", "view", "neg", "last", "any"]), perl)))
 
-    def tup(name, k, layouts, dtypes, full=False, lo=None, hi=None):
+    def tup(ctx, k, layouts, dtypes, full=False):
         cases = list(tuple_cases(k, layouts, dtypes, full))
-        cases = cases[lo:hi]
-        out.append((name, lambda ctx: drive_enum(
-            ctx, body_tuples, cases, space="value tuples k=%d x ref 1..k x orders x layouts %s x %s%s" % (
-                k, "/".join(layouts), "/".join(dtypes), "" if lo is None and hi is None else " [%s,%s)" % (lo, hi)), size=len(cases))))
+        drive_enum(ctx, body_tuples, cases, size=len(cases),
+                   space="value tuples k=%d x ref 1..k x %d data_vars orders x layouts %s x %s" % (
+                       k, len(_orders(k, full)), "/".join(layouts), "/".join(dtypes)))
+
+    def cfg(ctx, L, variant, lo=0, hi=None):
+        size = (hi if hi is not None else config_size(L)) - lo
+        drive_enum(ctx, body_config, config_cases(L, variant, lo, hi), size=size,
+                   space="ordered data_vars subsets (>= 2) x ref_var, L=%d, %dx%d %s [%d,%s)" % (
+                       (L,) + CONFIG_VARIANTS[variant][0] + (CONFIG_VARIANTS[variant][1], lo, hi if hi is not None else size)))
 
     all_lay = ["allC", "allF", "mixed", "view", "neg", "last"]
-    if thorough:
-        tup("tuples_k2", 2, all_lay, ["float64", "float32", "int64", "int8"])
-        tup("tuples_k3", 3, all_lay, ["float64", "float32", "int64", "int8"])
-        for j, lay in enumerate(all_lay):
-            tup("tuples_k4_%s" % lay, 4, [lay], ["float64", "int32"])
-        tup("tuples_k5", 5, ["allC", "allF", "mixed", "view"], ["float64", "int64"], full=True)
-        tup("tuples_k6", 6, ["allC", "allF", "mixed", "view"], ["float64", "int64"], full=True)
-    else:
-        tup("tuples_k2", 2, all_lay, ["float64", "int64"])
-        tup("tuples_k3", 3, all_lay, ["float64", "int8"])
-        tup("tuples_k4_allC", 4, ["allC"], ["float64"])
-        tup("tuples_k4_allF", 4, ["allF"], ["float64"])
-        tup("tuples_k4_mixed", 4, ["mixed"], ["float64"])
-        tup("tuples_k5", 5, ["allC", "allF"], ["float64"])
-        tup("tuples_k6", 6, ["allC", "allF", "mixed"], ["float64"])
 
-    def cfg(name, L, variant, lo=0, hi=None):
-        size = (hi if hi is not None else config_size(L)) - lo
-        out.append((name, lambda ctx: drive_enum(
-            ctx, body_config, config_cases(L, variant, lo, hi),
-            space="ordered data_vars subsets x ref_var, L=%d, %dx%d %s [%d,%s)" % (
-                (L,) + CONFIG_VARIANTS[variant][0] + (CONFIG_VARIANTS[variant][1], lo, hi)), size=size)))
+    def seq(*steps):
+        def run(ctx):
+            for f, args in steps:
+                f(ctx, *args)
+        return run
 
     if thorough:
-        for v in range(len(CONFIG_VARIANTS)):
-            cfg("config_L345_v%d_3" % v, 3, v)
-            cfg("config_L345_v%d_4" % v, 4, v)
-            cfg("config_L345_v%d_5" % v, 5, v)
-        for v in (0, 1, 2, 3):
-            tot = config_size(6)
-            for b in range(2):
-                cfg("config_L6_v%d#%d" % (v, b), 6, v, b * tot // 2, (b + 1) * tot // 2)
+        dts = ["float64", "float32", "int64", "int8"]
+        out.append(("enum_tuples_k2k3", seq((tup, (2, all_lay, dts)), (tup, (3, all_lay, dts)))))
+        out.append(("enum_tuples_k4#0", seq((tup, (4, all_lay[:3], ["float64", "int32"])))))
+        out.append(("enum_tuples_k4#1", seq((tup, (4, all_lay[3:], ["float64", "int32"])))))
+        out.append(("enum_tuples_k5", seq((tup, (5, all_lay[:4], ["float64", "int64"], True)))))
+        out.append(("enum_tuples_k6", seq((tup, (6, all_lay[:4], ["float64", "int64"], True)))))
+        out.append(("enum_config_L345", seq(*[(cfg, (L, v)) for v in range(len(CONFIG_VARIANTS)) for L in (3, 4, 5)])))
+        tot = config_size(6)
+        out.append(("enum_config_L6#0", seq((cfg, (6, 0)), (cfg, (6, 2, 0, tot // 2)), (cfg, (6, 3, tot // 2, tot)))))
+        out.append(("enum_config_L6#1", seq((cfg, (6, 1)), (cfg, (6, 2, tot // 2, tot)), (cfg, (6, 3, 0, tot // 2)))))
     else:
-        for v in (0, 1, 2, 3):
-            cfg("config_L34_v%d_3" % v, 3, v)
-            cfg("config_L34_v%d_4" % v, 4, v)
-        cfg("config_L5_v0", 5, 0)
-        cfg("config_L5_v1", 5, 1)
+        out.append(("enum_tuples_k2k3", seq((tup, (2, all_lay, ["float64", "int64"])), (tup, (3, all_lay, ["float64", "int8"])))))
+        out.append(("enum_tuples_k4", seq((tup, (4, ["allC", "allF", "mixed"], ["float64"])))))
+        out.append(("enum_tuples_k5k6", seq((tup, (5, ["allC", "allF"], ["float64"])), (tup, (6, ["allC", "allF", "mixed"], ["float64"])))))
+        out.append(("enum_config", seq(*([(cfg, (L, v)) for v in (0, 1, 2, 3) for L in (3, 4)] + [(cfg, (5, 0)), (cfg, (5, 1))]))))
     return out
 
 
